@@ -1,5 +1,5 @@
 From Coq Require Import ZArith Bool List Lia.
-From ExaV Require Import lib.Amap model.Model_Rib proofs.Proofs_Rib model.Model_Reload.
+From ExaV Require Import lib.Amap model.Model_Rib proofs.Proofs_Rib gen.Gen_MainShape model.Model_Reload.
 Import ListNotations.
 Open Scope Z_scope.
 
@@ -235,7 +235,8 @@ Proof.
     try (split; cbn [nsys npw]; [now apply step_inv|destruct P as [P|P]; [now left|right; apply up_step_down; [exact P|discriminate]]]).
   destruct (up (nsys b)) eqn:U.
   - split; [exact I|]. destruct P as [P|P]; [now left|discriminate].
-  - split; cbn [nsys npw]; [|now left]. apply run_inv. now apply step_inv.
+  - (* Peer._main must forget Neighbor.previous once replace_restart has used it (restart_clears, gen) *)
+    split; cbn [nsys npw]; [|unfold restart_clears; now left]. apply run_inv. now apply step_inv.
 Qed.
 
 Lemma not_establish_ann : forall l o, In o (map Ann l) -> o <> Establish.
@@ -262,8 +263,11 @@ Proof.
   destruct (zget n (peers s)) as [p|].
   2:{ split; cbn [nsys npw]; [exact I|now left]. }
   destruct (p =? nparams c).
-  - split; cbn [nsys npw]; [now apply run_inv|now left].
-  - split; cbn [nsys npw]; [now apply step_inv|now right].
+  - (* the loop of Peer._main must forget Neighbor.previous once replace_reload has used it (reload_clears, gen) *)
+    split; cbn [nsys npw]; [now apply run_inv|]. unfold reload_clears. rewrite andb_false_r. now left.
+  - destruct (fix_eager fx); split; cbn [nsys npw]; try (now right).
+    + apply step_inv. now apply run_inv.
+    + now apply step_inv.
 Qed.
 
 Lemma NbInv_get : forall n m, (forall b, zget n m = Some b -> NbInv b) -> NbInv (get_nb n m).
@@ -343,14 +347,23 @@ Proof.
                match lastk k (nroutes c) with Some x => Some (rval x) | None => zget k (intended (nsys b0)) end).
   { cbn [parsed_nb nsys]. rewrite intended_run by apply simple_ann. apply IE_ann. }
   destruct (zget n (peers s)) as [p|] eqn:Gp.
-  - destruct (p =? nparams c); cbn [nsys npw].
-    + cbn [has_idx existsb]. rewrite intended_run by apply simple_rr. cbn [parsed_nb nsys].
-      rewrite intended_run by apply simple_ann. rewrite IE_reconfigure. unfold diffed.
+  - assert (RC' : IE k (rr_ops owed (nroutes c)) (IE k (map Ann (nroutes c)) (zget k (intended (nsys b0)))) =
+                 diffed (prev_routes s n) (nroutes c) k
+                   (if has_idx k (npw b0) then None else zget k (intended (nsys b0)))).
+    { rewrite IE_reconfigure. unfold diffed.
       destruct (lastk k (nroutes c)); [reflexivity|]. rewrite HO.
-      destruct (has_idx k (npw b0)), (has_idx k (prev_routes s n)); reflexivity.
-    + rewrite has_idx_leftover. rewrite (intended_step _ Drop) by reflexivity. cbn [ieff]. rewrite I1.
-      unfold diffed. rewrite (lastk_has k (nroutes c)). destruct (lastk k (nroutes c)); simpl; [reflexivity|].
-      rewrite HO. destruct (has_idx k (npw b0)), (has_idx k (prev_routes s n)); reflexivity.
+      destruct (has_idx k (npw b0)), (has_idx k (prev_routes s n)); reflexivity. }
+    destruct (p =? nparams c).
+    + cbn [nsys npw]. unfold reload_clears. rewrite andb_false_r. cbn [has_idx existsb].
+      rewrite intended_run by apply simple_rr. cbn [parsed_nb nsys].
+      rewrite intended_run by apply simple_ann. exact RC'.
+    + destruct (fix_eager fx); cbn [nsys npw].
+      * cbn [has_idx existsb]. rewrite (intended_step _ Drop) by reflexivity. cbn [ieff].
+        rewrite intended_run by apply simple_rr. cbn [parsed_nb nsys].
+        rewrite intended_run by apply simple_ann. exact RC'.
+      * rewrite has_idx_leftover. rewrite (intended_step _ Drop) by reflexivity. cbn [ieff]. rewrite I1.
+        unfold diffed. rewrite (lastk_has k (nroutes c)). destruct (lastk k (nroutes c)); simpl; [reflexivity|].
+        rewrite HO. destruct (has_idx k (npw b0)), (has_idx k (prev_routes s n)); reflexivity.
   - (* a new peer: the neighbor was not configured before *)
     destruct (Hnew eq_refl) as [P0 Nn]. cbn [nsys npw has_idx existsb]. rewrite I1.
     unfold diffed, prev_routes. rewrite Nn, P0. cbn [has_idx existsb]. reflexivity.
@@ -381,7 +394,7 @@ Lemma goal_step : forall b o k, touches k o = false -> goal (nb_step b o) k = go
 Proof.
   intros b o k T. unfold goal. destruct o; cbn [nb_step]; cbn [nsys npw];
     try (rewrite intended_untouched by exact T; reflexivity).
-  destruct (up (nsys b)) eqn:U; [reflexivity|]. cbn [nsys npw has_idx existsb].
+  destruct (up (nsys b)) eqn:U; [reflexivity|]. unfold restart_clears. cbn [nsys npw has_idx existsb].
   rewrite intended_run by apply simple_wd. rewrite IE_wd.
   rewrite (intended_step _ Establish) by reflexivity. reflexivity.
 Qed.
@@ -736,3 +749,208 @@ Lemma chain_peer_tables :
   zget 2 (peer (nsys (get_nb 1 (ribs (run_r repaired tail (chain_state repaired)))))) = None /\
   zget 3 (peer (nsys (get_nb 1 (ribs (run_r repaired tail (chain_state repaired)))))) = Some (1, 1).
 Proof. vm_compute. repeat split. Qed.
+
+(* ================================================================ 8. every history *)
+
+(* the property followed at the level of files and API operations, for one neighbor n and one prefix k:
+   (the definition of n in the last accepted file, the value its peer must hold) *)
+Definition spec_st := (option ncfg * option (Z * Z))%type.
+
+Definition spec_step (n k : Z) (sp : spec_st) (x : rop) : spec_st :=
+  match x with
+  | Reload (Parsed cfg) =>
+    match zget n cfg with
+    | Some c => (Some c, diffed (match fst sp with Some c0 => nroutes c0 | None => [] end) (nroutes c) k (snd sp))
+    | None => (None, None)
+    end
+  | Reload _ => sp                       (* a reload that fails changes nothing *)
+  | RibOp m o =>
+    if m =? n then match fst sp with Some _ => (fst sp, ieff k o (snd sp)) | None => sp end else sp
+  end.
+
+Definition spec_run (n k : Z) (ops : list rop) : spec_st := fold_left (spec_step n k) ops (None, None).
+
+Definition simple_rop (x : rop) : bool := match x with RibOp _ o => simple o | Reload _ => true end.
+
+Definition all_fixed (fx : fixes) : Prop :=
+  fix_rollback fx = true /\ fix_defer fx = true /\ fix_chain fx = true /\ fix_eager fx = true.
+
+Record Good (s : st) : Prop := {
+  gd_stale : stale s = [];
+  gd_peers : forall n, zmem n (peers s) = zmem n (neighbors s);
+  gd_npw : forall n b, zget n (ribs s) = Some b -> npw b = [];
+  gd_orphan : forall n, zget n (peers s) = None -> zget n (ribs s) = None
+}.
+
+Definition Rel (n k : Z) (s : st) (sp : spec_st) : Prop :=
+  zget n (neighbors s) = fst sp /\
+  match fst sp with
+  | Some _ => exists b, zget n (ribs s) = Some b /\ zget k (intended (nsys b)) = snd sp
+  | None => zget n (ribs s) = None /\ snd sp = None
+  end.
+
+Lemma Good_st0 : Good st0.
+Proof. constructor; try reflexivity. intros n b G. discriminate. Qed.
+
+Lemma npw_commit_eager : forall fx s n c pn b, fix_eager fx = true -> npw (commit_nb fx s n c pn b) = [].
+Proof.
+  intros fx s n c pn b F. unfold commit_nb. destruct (zget n (peers s)) as [p|]; [|reflexivity].
+  destruct (p =? nparams c); cbn [npw].
+  - unfold reload_clears. now rewrite andb_false_r.
+  - rewrite F. reflexivity.
+Qed.
+
+Lemma npw_step_nil : forall b o, npw b = [] -> npw (nb_step b o) = [].
+Proof.
+  intros b o P. destruct o; cbn [nb_step npw]; try exact P.
+  destruct (up (nsys b)); [exact P|]. cbn [npw]. destruct restart_clears; [reflexivity|exact P].
+Qed.
+
+Lemma zmem_none {V} : forall n (m : amap Z V), zmem n m = false -> zget n m = None.
+Proof. intros n m H. unfold amem in H. destruct (zget n m); [discriminate|reflexivity]. Qed.
+
+Lemma Good_reload_parsed : forall fx s cfg, fix_eager fx = true -> Good s -> Good (fst (reload fx s (Parsed cfg))).
+Proof.
+  intros fx s cfg F G. constructor; cbn [reload fst stale peers neighbors ribs].
+  - reflexivity.
+  - intros n. apply amem_commit_peers.
+  - intros n b H. unfold commit_ribs in H. rewrite aget_build in H.
+    destruct (existsb _ _); [|discriminate].
+    destruct (zget n (merge_cfg (stale s) cfg)) as [c|].
+    + injection H as <-. now apply npw_commit_eager.
+    + destruct (zmem n (peers s)); [discriminate|]. now apply (gd_npw s G n).
+  - intros n P. unfold commit_peers in P. rewrite aget_build in P.
+    unfold commit_ribs. rewrite aget_build.
+    destruct (zget n (merge_cfg (stale s) cfg)) as [c|] eqn:Gc.
+    + rewrite in_merge_names in P; [discriminate|]. eapply aget_in_keys; [exact zspec|exact Gc].
+    + destruct (existsb _ (merge_names (akeys (ribs s)) _)); [|reflexivity].
+      destruct (zmem n (peers s)) eqn:M; [reflexivity|]. apply (gd_orphan s G). now apply zmem_none.
+Qed.
+
+Lemma Good_ribop : forall fx s m o, Good s -> Good (rstep fx s (RibOp m o)).
+Proof.
+  intros fx s m o G. cbn [rstep]. destruct (zmem m (peers s)) eqn:M; [|exact G].
+  destruct (zget m (ribs s)) as [b|] eqn:Gb; [|exact G].
+  constructor; cbn [stale peers neighbors ribs]; [exact (gd_stale s G)|exact (gd_peers s G)| |].
+  - intros n b' H. destruct (zspec n m) as [->|N].
+    + rewrite aget_aset_same in H by exact zspec. injection H as <-. apply npw_step_nil. now apply (gd_npw s G m).
+    + rewrite aget_aset_other in H; [now apply (gd_npw s G n)|exact zspec|exact N].
+  - intros n P. destruct (zspec n m) as [->|N].
+    + unfold amem in M. rewrite P in M. discriminate.
+    + rewrite aget_aset_other; [now apply (gd_orphan s G)|exact zspec|exact N].
+Qed.
+
+Lemma intended_nb_step : forall b o k, simple o = true -> npw b = [] ->
+  zget k (intended (nsys (nb_step b o))) = ieff k o (zget k (intended (nsys b))).
+Proof.
+  intros b o k S P. destruct o; cbn [nb_step nsys]; try (now apply intended_step).
+  destruct (up (nsys b)) eqn:U; [reflexivity|]. cbn [nsys]. rewrite P. cbn [map run fold_left].
+  now apply intended_step.
+Qed.
+
+Lemma history_step : forall fx n k s sp x, all_fixed fx -> simple_rop x = true ->
+  Good s -> Rel n k s sp -> Good (rstep fx s x) /\ Rel n k (rstep fx s x) (spec_step n k sp x).
+Proof.
+  intros fx n k s [cn v] x [F1 [F2 [F3 F4]]] S G [RN RR]. cbn [fst snd] in *.
+  destruct x as [m o|o].
+  - (* an operation on one RIB *)
+    split; [now apply Good_ribop|]. cbn [rstep spec_step].
+    destruct (zspec m n) as [->|N].
+    2:{ assert (Same : zget n (ribs (if zmem m (peers s) then match zget m (ribs s) with
+                 | Some b => {| neighbors := neighbors s; stale := stale s; peers := peers s; ribs := zset m (nb_step b o) (ribs s) |}
+                 | None => s end else s)) = zget n (ribs s) /\
+               neighbors (if zmem m (peers s) then match zget m (ribs s) with
+                 | Some b => {| neighbors := neighbors s; stale := stale s; peers := peers s; ribs := zset m (nb_step b o) (ribs s) |}
+                 | None => s end else s) = neighbors s).
+        { destruct (zmem m (peers s)); [|split; reflexivity]. destruct (zget m (ribs s)); [|split; reflexivity].
+          cbn [ribs neighbors]. split; [|reflexivity]. apply aget_aset_other; [exact zspec|congruence]. }
+        destruct Same as [Sr Sn]. split; cbn [fst snd]; [now rewrite Sn|]. rewrite Sr. exact RR. }
+    destruct cn as [c0|]; cbn [fst snd].
+    + destruct RR as [b [Gb Iv]].
+      assert (M : zmem n (peers s) = true).
+      { rewrite (gd_peers s G n). unfold amem. now rewrite RN. }
+      rewrite M, Gb. split; cbn [neighbors ribs fst snd]; [exact RN|].
+      exists (nb_step b o). split; [apply aget_aset_same; exact zspec|].
+      rewrite intended_nb_step; [now rewrite Iv|exact S|now apply (gd_npw s G n)].
+    + destruct RR as [Gb Vn].
+      assert (M : zmem n (peers s) = false).
+      { rewrite (gd_peers s G n). unfold amem. now rewrite RN. }
+      rewrite M. split; cbn [fst snd]; [exact RN|split; assumption].
+  - destruct o as [cfg|clean pre|].
+    + (* a reload that parses *)
+      split; [now apply Good_reload_parsed|]. cbn [rstep spec_step fst snd].
+      assert (Nb : zget n (neighbors (fst (reload fx s (Parsed cfg)))) = zget n cfg).
+      { cbn [reload fst neighbors]. rewrite (gd_stale s G). apply aget_merge_nil. }
+      unfold Rel. rewrite Nb. clear Nb.
+      cbn [reload fst ribs]. rewrite (gd_stale s G).
+      unfold commit_ribs. rewrite aget_build, aget_merge_nil.
+      destruct (zget n cfg) as [c|] eqn:Gc; cbn [fst snd].
+      * split; [reflexivity|]. rewrite in_merge_names.
+        2:{ eapply aget_in_keys; [exact zspec|]. rewrite aget_merge_nil. exact Gc. }
+        assert (M : zmem n cfg = true) by (unfold amem; now rewrite Gc). rewrite M, orb_true_r.
+        eexists. split; [reflexivity|].
+        assert (P0 : npw (get_nb n (ribs s)) = []).
+        { unfold get_nb. destruct (zget n (ribs s)) as [b|] eqn:Gb; [now apply (gd_npw s G n)|reflexivity]. }
+        pose proof (goal_commit_gen fx s n c k (get_nb n (ribs s))) as GC.
+        unfold goal in GC. rewrite npw_commit_eager in GC by exact F4. rewrite P0 in GC. cbn [has_idx existsb] in GC.
+        rewrite GC.
+        -- unfold prev_routes. rewrite RN. f_equal.
+           destruct cn as [c0|].
+           ++ destruct RR as [b [Gb Iv]]. unfold get_nb. now rewrite Gb.
+           ++ destruct RR as [Gb Vn]. unfold get_nb. rewrite Gb, Vn. reflexivity.
+        -- intros P. split; [reflexivity|]. pose proof (gd_peers s G n) as E. unfold amem in E. rewrite P in E.
+           destruct (zget n (neighbors s)); [discriminate|reflexivity].
+        -- now left.
+      * split; [reflexivity|]. split; [|reflexivity].
+        destruct (existsb _ _); [|reflexivity].
+        destruct (zmem n (peers s)) eqn:M; [reflexivity|]. apply (gd_orphan s G). now apply zmem_none.
+    + cbn [rstep spec_step]. rewrite (failure_noop_fx fx s (Failed clean pre) F1 F2 (gd_stale s G) I). cbn [fst]. split; [exact G|split; assumption].
+    + cbn [rstep spec_step]. rewrite (failure_noop_fx fx s NoFile F1 F2 (gd_stale s G) I). cbn [fst]. split; [exact G|split; assumption].
+Qed.
+
+Lemma history_run : forall fx n k ops s sp, all_fixed fx -> forallb simple_rop ops = true ->
+  Good s -> Rel n k s sp -> Rel n k (run_r fx ops s) (fold_left (spec_step n k) ops sp).
+Proof.
+  intros fx n k ops. induction ops as [|x ops IH]; intros s sp F S G R; [exact R|].
+  simpl in S. apply andb_prop in S. destruct S as [S1 S2]. simpl.
+  destruct (history_step fx n k s sp x F S1 G R) as [G' R']. now apply IH.
+Qed.
+
+(* EVERY history of reloads (parsed or failing, any number in a row), API announcements and withdrawals,
+   flushes, generator steps, session losses and establishments, on the fully repaired tree: whenever the
+   session of neighbor n is established and its RIB drained, its peer holds for prefix k exactly what
+   the files and the API operations say. *)
+Theorem history : forall fx ops n k b, all_fixed fx -> forallb simple_rop ops = true ->
+  zget n (ribs (run_r fx ops st0)) = Some b -> up (nsys b) = true -> drained (r (nsys b)) ->
+  zget k (peer (nsys b)) = snd (spec_run n k ops).
+Proof.
+  intros fx ops n k b F S Gb U D.
+  assert (R0 : Rel n k st0 (None, None)) by (split; [reflexivity|split; reflexivity]).
+  pose proof (history_run fx n k ops st0 (None, None) F S Good_st0 R0) as [RN RR].
+  fold (spec_run n k ops) in RN, RR.
+  destruct (AllInv_run fx ops n b Gb) as [I P].
+  destruct (drained_converged (nsys b) I U D k) as [A B]. rewrite A, <- B.
+  destruct (fst (spec_run n k ops)).
+  - destruct RR as [b' [Gb' Iv]]. rewrite Gb in Gb'. injection Gb' as <-. exact Iv.
+  - destruct RR as [Gn _]. rewrite Gb in Gn. discriminate.
+Qed.
+
+(* without the last repair: a reload changes a session parameter and removes prefix 2; before the session is
+   back the API announces prefix 2; at establishment it is withdrawn with the routes the reload removed *)
+Definition eager_ops : list rop :=
+  [Reload (Parsed chain_old); Reload (Parsed chain_mid); RibOp 1 (Ann (wR 2 1));
+   RibOp 1 Establish; RibOp 1 Start; RibOp 1 Emit; RibOp 1 Emit; RibOp 1 Emit].
+
+Theorem history_refuted_without_eager :
+  exists ops n k b, forallb simple_rop ops = true /\
+    zget n (ribs (run_r repaired_chain ops st0)) = Some b /\ up (nsys b) = true /\ drained (r (nsys b)) /\
+    zget k (peer (nsys b)) <> snd (spec_run n k ops).
+Proof.
+  exists eager_ops, 1, 2. eexists. split; [reflexivity|]. split; [vm_compute; reflexivity|].
+  split; [reflexivity|]. split; [vm_compute; repeat split|]. vm_compute. discriminate.
+Qed.
+
+Lemma history_eager_witness_repaired :
+  zget 2 (peer (nsys (get_nb 1 (ribs (run_r repaired eager_ops st0))))) = Some (1, 1) /\
+  snd (spec_run 1 2 eager_ops) = Some (1, 1).
+Proof. vm_compute. split; reflexivity. Qed.
